@@ -11,6 +11,14 @@ fn code_or<A: Cx>(f: impl FnOnce() -> A) -> i64 {
 }
 
 pub fn run<A: Cx>(d: &mut Drv<A>) {
+    for l in cells::<A>() {
+        d.log_line(l);
+    }
+}
+
+/// the complete table dump of one codec (no register state involved)
+pub fn cells<A: Cx>() -> Vec<String> {
+    let mut lines: Vec<String> = Vec::new();
     for b in 0..=255u8 {
         let tfb = A::try_from_bits(b);
         let tfa = A::try_from_ascii(b);
@@ -28,7 +36,7 @@ pub fn run<A: Cx>(d: &mut Drv<A>) {
             bits = x.to_bits() as i64;
             if let Some(c) = catch_unwind(AssertUnwindSafe(|| A::sym_comp(x))).unwrap_or(None) {
                 comp = c.to_bits() as i64;
-            } else if matches!(A::NAME, "dna" | "iupac" | "mdna" | "miupac" | "degen") {
+            } else if matches!(A::NAME, "dna" | "iupac" | "mdna" | "miupac" | "degen" | "x3") {
                 comp = -2;
             }
             // masked DNA: the documentation speaks about A,C,G,T,N (toggle) and gap/pad (fixed)
@@ -41,10 +49,11 @@ pub fn run<A: Cx>(d: &mut Drv<A>) {
         let obs = json!({"tfb": tfb_c, "ufb": ufb, "tfa": tfa_c, "ufa": ufa, "ch": ch, "bits": bits,
                          "comp": comp, "mask": mask, "unmask": unmask});
         let op = json!({"op": "cell", "c": A::NAME, "b": b});
-        d.log_line(crate::world::merge(&op, obs).to_string());
+        lines.push(crate::world::merge(&op, obs).to_string());
     }
     let mut items: Vec<u64> = A::items().map(|x| x.to_bits() as u64).collect();
     items.sort();
     let op = json!({"op": "codecinfo", "c": A::NAME});
-    d.log_line(crate::world::merge(&op, json!({"w": A::BITS, "items": items})).to_string());
+    lines.push(crate::world::merge(&op, json!({"w": A::BITS, "items": items})).to_string());
+    lines
 }
